@@ -20,6 +20,7 @@ Definition dispatch (e : sexp) : option sexp :=
   | SList (Atom "sortstrings" :: _) => run_sortstrings e
   | SList (Atom "tail" :: _) => run_tail e
   | SList (Atom "normopts" :: _) => run_normopts e
+  | SList (Atom "optfind" :: _) => run_optfind e
   | SList (Atom "engine" :: _) => run_engine e
   | SList (Atom "find" :: _) => run_find e
   | SList (Atom "plain" :: _) => run_plain e
